@@ -114,9 +114,42 @@ class C02(Prop):
         return v
 
 
+    def long_runs(self, ctx):
+        """A few online monitors fed for several thousand updates without reset() (memory-bounding code paths)."""
+        if ctx.shard != 0:
+            return
+        rng = ctx.rng
+        x, y = lang.V('x'), lang.V('y')
+        p, q = lang.N('geq', x, lang.C(0.0)), lang.N('geq', y, lang.C(1.0))
+        forms = [lang.N('since', p, q, ivl=(1, 3)),
+                 lang.N('or', lang.N('once', p, ivl=(1, 3)), lang.N('historically', q, ivl=(0, 2))),
+                 lang.N('and', lang.N('s_prev', lang.N('since', p, q, ivl=(0, 2))), lang.N('rise', p)),
+                 lang.N('historically', lang.N('implies', p, lang.N('once', q, ivl=(0, 4))), ivl=(0, 4))]
+        # (bounded operators only: the reference is quadratic or worse in the trace length for unbounded ones)
+        n = 4300 if ctx.tier == 'quick' else 9000
+        for f in forms:
+            data = dict((k, [rng.choice(lang.SMALL) for _ in range(n)]) for k in ('x', 'y'))
+            text = lang.to_text(f)
+            exp = ref.evaluate(f, data, n)
+            case = {'type': 'long-run', 'text': text, 'n': n}
+            ctx.case(case, True)
+            ctx.count('class:long-run', 1)
+            try:
+                on = drive.dt_online(text, ['x', 'y'], data, n)
+            except Exception as e:
+                ctx.violation('raises:' + type(e).__name__, '%s: a %d-update run raised %s: %s' % (
+                    text, n, type(e).__name__, e), case)
+                continue
+            bad = [i for i in range(n) if exp[i] == exp[i] and not ref.same(on[i], exp[i])]
+            if bad:
+                i = bad[0]
+                ctx.violation('online!=offline', '%s, %d updates without reset(): update #%d returned %r, reference %r '
+                              '(%d updates differ)' % (text, n, i, on[i], exp[i], len(bad)), case)
+
     def extra(self, ctx):
         """Enumerated part: every past operator x every interval [a,b], 0<=a<=b<=4 (and unbounded), over a bare
         variable and a predicate, traces of 1..8 samples; thorough: every outer x inner pair as well."""
+        self.long_runs(ctx)
         rng = ctx.rng
         x, y = lang.V('x'), lang.V('y')
         px, py = lang.N('geq', x, lang.C(1.0)), lang.N('leq', y, lang.C(0.5))
